@@ -110,7 +110,7 @@ pub fn all() -> Vec<Prop> {
                 "the fidelity batch (real rayon, real pools) is not a deciding step: mismatches are counted and reported, never a VIOLATION",
             ],
             batches: vec![
-                Batch { name: "schedules", scenario: crate::scen_b::c08_schedules, quick: 25000, thorough: 250000, varies: "completion order of the parallel loading phase x nested section order x simulated pool size x storage faults on the stored image" },
+                Batch { name: "schedules", scenario: crate::scen_b::c08_schedules, quick: 15000, thorough: 100000, varies: "completion order of the parallel loading phase x nested section order x simulated pool size x storage faults on the stored image" },
                 Batch { name: "fidelity", scenario: crate::scen_b::c08_fidelity, quick: 300, thorough: 3000, varies: "(stub fidelity, non-deciding) real rayon pools of 1,2,4,8,16 threads" },
             ],
         },
